@@ -252,3 +252,161 @@ M.contract(F, "default_instead_undo",
            ensures=["result == spec_default(rule, key, diff)",
                     "rule['reverse'] == (old(rule)['reverse'].replace('no', 'default') if diff[Op.REMOVED] else old(rule)['reverse'])"],
            raises=_RAISES, modifies=["rule"], canaries=["len(result) == 0"], properties=["C20"], **_common)
+
+
+# ==================================================================================================================
+# common.apply: the per-vendor session wrapper (C09).  Loop-free: path enumeration over the hardware flags is a
+# complete proof.  The expected wrapper is pinned here as a table, from the statement ("enter configuration mode
+# before; commit, leave, save after; no commit command when committing is disabled").
+HwHuawei = U.record("HwHuawei", dict(self_=BOOL, CE=BOOL, NE=BOOL))
+HwHuawei.bool_field = "self_"
+HwB4com = U.record("HwB4com", dict(self_=BOOL, CS2148P=BOOL))
+HwB4com.bool_field = "self_"
+Hw = U.record("Hw", dict(Huawei=HwHuawei, Arista=BOOL, ASR=BOOL, XRV=BOOL, XR=BOOL, Cisco=BOOL, Nexus=BOOL, Juniper=BOOL, PC=BOOL,
+                         Nokia=BOOL, RouterOS=BOOL, Aruba=BOOL, Ribbon=BOOL, B4com=HwB4com, H3C=BOOL, soft=STR))
+OptInt = U.union("OptInt", dict(none=None, some=INT))
+CmdT = U.tuple("CmdT", [STR, OptInt])        # Command(cmd, timeout=...)
+SeqCmdT = SeqT(CmdT)
+ApplyRes = U.tuple("ApplyRes", [SeqCmdT, SeqCmdT])
+
+
+def _seq_add_cmd(ex, recv, recv_node, args, kwargs, st, node):
+    from pyvc.values import concat, PyTup
+    ex.assign_to(recv_node, concat(recv, PyTup([args[0]], True)), st)
+    return NONE_V
+
+
+SeqCmdT.methods = {"add_cmd": _seq_add_cmd}
+
+
+def _mk_command(ex, args, kwargs, st, node):
+    return PyTup([args[0], kwargs.get("timeout", NONE_V)])
+
+
+def _mk_cmdlist(ex, args, kwargs, st, node):
+    from pyvc.values import coerce
+    return coerce(PyTup([], True), SeqCmdT)
+
+
+def _environ_get(ex, args, kwargs, st, node):
+    return V(BOOL, z3.Bool("env_ETCKEEPER_CHECK"))
+
+
+M.export(Command=PyFn("Command", _mk_command), CommandList=PyFn("CommandList", _mk_cmdlist),
+         os=PyConstObj("os", dict(environ=PyConstObj("environ", dict(get=PyFn("environ.get", _environ_get))))),
+         etckeeper=Lazy(lambda: V(BOOL, z3.Bool("env_ETCKEEPER_CHECK"))))
+
+import os as _os
+
+
+def cmds(cl):
+    """native view of a CommandList as [(cmd, timeout)]"""
+    return [(c.cmd, c.timeout) for c in cl]
+
+
+M.export(cmds=PyFn("cmds", lambda ex, args, kwargs, st, node: args[0]))
+
+
+def _native_etckeeper():
+    return bool(_os.environ.get("ETCKEEPER_CHECK", False))
+
+
+etckeeper = _native_etckeeper()
+
+
+@M.spec
+def spec_apply_before(hw: Hw, do_commit: BOOL, do_finalize: BOOL, etck: BOOL) -> SeqCmdT:
+    """the command that enters configuration mode"""
+    if hw.Huawei:
+        return [("system-view", None)]
+    if hw.Arista:
+        return [("conf s", None)]
+    if hw.ASR or hw.XRV or hw.XR:
+        return [("configure exclusive", None)]
+    if hw.Cisco or hw.Nexus:
+        return [("conf t", None)]
+    if hw.Juniper:
+        return [("configure exclusive", None)]
+    if hw.PC:
+        return [("etckeeper check", None)] if (hw.soft.startswith(("Cumulus", "SwitchDev")) and etck) else []
+    if hw.Nokia:
+        return [("configure private", None)]
+    if hw.RouterOS:
+        return []
+    if hw.Aruba:
+        return [("conf t", None)]
+    if hw.Ribbon:
+        return [("configure exclusive", None)]
+    if hw.B4com:
+        return [("conf t", None)]
+    return [("system-view", None)]
+
+
+@M.spec
+def spec_apply_after(hw: Hw, do_commit: BOOL, do_finalize: BOOL) -> SeqCmdT:
+    """commit (only when committing is enabled and the platform has commits), leave, save (only when finalizing)"""
+    if hw.Huawei:
+        return ([("commit", None)] if (do_commit and (hw.Huawei.CE or hw.Huawei.NE)) else []) + [("q", None)] + \
+            ([("save", 20)] if do_finalize else [])
+    if hw.Arista:
+        return [("commit", None) if do_commit else ("abort", None)] + ([("write memory", None)] if do_finalize else [])
+    if hw.ASR or hw.XRV or hw.XR:
+        return ([("commit", None)] if do_commit else []) + [("exit", None)]
+    if hw.Cisco or hw.Nexus:
+        return [("exit", None)] + ([("copy running-config startup-config", 40)] if do_finalize else [])
+    if hw.Juniper:
+        return ([("commit", 30)] if do_commit else []) + [("exit", None)]
+    if hw.PC:
+        return []
+    if hw.Nokia:
+        return [("commit", None)] if do_commit else []
+    if hw.RouterOS:
+        return []
+    if hw.Aruba:
+        return [("end", None)] + ([("commit apply", None)] if do_commit else []) + ([("write memory", None)] if do_finalize else [])
+    if hw.Ribbon:
+        return ([("commit", 30)] if do_commit else []) + [("exit", None)]
+    if hw.B4com.CS2148P:
+        return [("end", None)] + ([("write", 40)] if do_finalize else [])
+    if hw.B4com:
+        return ([("commit", None), ("end", None)] if do_commit else []) + ([("write", 40)] if do_finalize else [])
+    return [("save force", 20)] if do_finalize else []
+
+
+@M.spec
+def known_hw(hw: Hw) -> BOOL:
+    return bool(hw.Huawei or hw.Arista or hw.ASR or hw.XRV or hw.XR or hw.Cisco or hw.Nexus or hw.Juniper or hw.PC or hw.Nokia
+                or hw.RouterOS or hw.Aruba or hw.Ribbon or hw.B4com or hw.H3C)
+
+
+@M.spec
+def no_commit_cmd(cs: SeqCmdT) -> BOOL:
+    return True if len(cs) == 0 else (not cs[0][0].startswith("commit") and no_commit_cmd(cs[1:]))
+
+
+M.lemma("no_commit_when_disabled", vars=dict(hw=Hw, do_finalize=BOOL, etck=BOOL), hyps=[],
+        goal="no_commit_cmd(spec_apply_before(hw, False, do_finalize, etck)) and no_commit_cmd(spec_apply_after(hw, False, do_finalize))",
+        properties=["C09"], fuel=5)
+
+
+def _hw_inputs():
+    from bounded.common import setup_annet
+    setup_annet()
+    from annet.annlib.netdev.views.hardware import HardwareView
+    models = ["Huawei CE6870", "Huawei NE40E", "Huawei S5700", "Arista DCS-7368", "Cisco ASR9001", "Cisco XRV", "Cisco Catalyst 2960",
+              "Cisco Nexus 3172", "Juniper MX480", "PC Mellanox SN3700", "PC", "Nokia 7750", "RouterOS RB2011", "Aruba AP-505",
+              "Ribbon NPT-1200", "B4com CS2148P", "B4com 4100", "H3C S6800", "NoSuchVendor X1"]
+    for m in models:
+        for soft in ("", "Cumulus Linux 4.2"):
+            for dc in (False, True):
+                for df in (False, True):
+                    yield dict(hw=HardwareView(m, soft), do_commit=dc, do_finalize=df)
+
+
+M.contract(F, "apply", params=dict(hw=Hw, do_commit=BOOL, do_finalize=BOOL), ret=ApplyRes, ignore_kwargs=True,
+           requires=["implies(hw.Huawei.CE, hw.Huawei)", "implies(hw.Huawei.NE, hw.Huawei)", "implies(hw.B4com.CS2148P, hw.B4com)"],
+           ensures=["cmds(result[0]) == spec_apply_before(hw, do_commit, do_finalize, etckeeper)",
+                    "cmds(result[1]) == spec_apply_after(hw, do_commit, do_finalize)"],
+           raises={"Exception": ["not known_hw(hw)"]},
+           canaries=["len(result[1]) == 0"], inputs=_hw_inputs, properties=["C09"], shards=8,
+           note="hardware flags are booleans with the hierarchy axiom (a specific family implies its ancestor) as precondition")
